@@ -1,18 +1,19 @@
 (* Properties/C16.v — Written range and location lists read back as the same lists.
-   Only statements (`exact lemma`), non-vacuity examples, refutation witnesses and pins live here.
+   Only statements (`exact lemma`), non-vacuity examples and pins live here.
 
-   Model: GV.Model.ListsWr (write/range.rs, write/loc.rs, the list part of write/unit.rs Unit::write);
-   range lists are written as `map loc_of_range l` with loc = false (the two Rust files are the same code).
-   Spec: GV.Spec.ListWrSpec (meaning of a written list, decoders dec5 / dec4 of the emitted bytes).
+   Model: GV.Model.ListsWr (write/range.rs, write/loc.rs, the list part of write/unit.rs Unit::write) as repaired by
+   /repo commits 85ffc95 (entries that would read back as base-address selections are rejected; the address size is
+   validated before the marker is computed) and e67c31b (StartLength sums are checked). No unchecked arithmetic is
+   left in these functions, so the model writers have no `dbg` argument: the statements hold for debug and release
+   builds alike (the correspondence streams still run both). Range lists are written as `map loc_of_range l` with
+   loc = false (the two Rust files are the same code).
+   Spec: GV.Spec.ListWrSpec (meaning of a written list, `rejected`, decoders dec5 / dec4 of the emitted bytes).
    Inputs are values of the Rust types: `wf loc x` / `wloc_wf x` say that numbers are u64 / i64 / usize and
    that a range entry carries no expression (it is `loc_of_range r`).
 
-   Known findings (known_findings.txt): the faithful model REFUTES two clauses for the DWARF 2-4 writers;
-   each refutation is a theorem below (`…_refuted…`, witness by vm_compute, reproduced on gimli by the
-   harness) next to the weakened theorem with the exact extra hypothesis:
-     * ambiguity/write_read_v4: a non-base entry whose first word is the all-ones marker (`marker_clash`);
-     * no_panic (debug builds): StartLength sums that overflow u64 / i64 (`sum_fits`), and a BaseAddress entry
-       with an address size outside 1..8. *)
+   History: on the unrepaired tree the faithful model refuted `ambiguity` (second half), `write_read_v4` and
+   `no_panic` (debug); the witnesses of those refutations are kept below as Examples of the Err results they now
+   get (known_findings.txt: `fixed: property=C16 …`). *)
 From Coq Require Import List NArith ZArith Bool.
 From Coq.Strings Require Import Byte.
 Require Import GV.Base.Res GV.Base.Byt GV.Base.Ints GV.Model.Leb GV.Model.Prim.
@@ -22,102 +23,101 @@ Local Open Scope N_scope.
 
 (* ------------------------------------------------------------------ (1) rejects *)
 
-(* DWARF 2-4, both writers, both build modes: scan the list with the running "a base address is in force" flag
-   (the unit's flag, set by every BaseAddress entry). The FIRST entry that is an empty range (begin = end or
-   length 0), an OffsetPair without a base, a StartEnd/StartLength with a base, or a DefaultLocation decides the
-   result: exactly InvalidRange / MissingBaseAddress / UnexpectedBaseAddress as `rejected` says — provided the
-   entries before it are writable at this address size and the offender's own sum does not overflow
-   (`plain_until_reject`; otherwise an earlier ValueTooLarge/InvalidAddress/panic wins). *)
-Theorem rejects_v4 : forall (dbg loc be : bool) (version asz : N) (l : list wloc) (hb : bool) (e : error),
+(* DWARF 2-4, both writers: scan the list with the running "a base address is in force" flag (the unit's flag,
+   set by every BaseAddress entry). The FIRST entry that is
+     - an empty range (begin = end, length 0)                                   -> InvalidRange
+     - an OffsetPair without a base                                             -> MissingBaseAddress
+     - a StartEnd / StartLength with a base                                     -> UnexpectedBaseAddress
+     - an entry whose first word is the all-ones base-selection marker          -> InvalidRange      (new, 85ffc95)
+     - a StartLength whose end does not fit u64 (constant) / i64 (symbolic)     -> ValueTooLarge     (new, e67c31b)
+     - a DefaultLocation                                                        -> InvalidRange
+   decides the result, exactly as `rejected` says (tests in the order of the code), provided the entries before it
+   are writable at this address size (`plain_until_reject`; otherwise an earlier ValueTooLarge/InvalidAddress wins). *)
+Theorem rejects_v4 : forall (loc be : bool) (version asz : N) (l : list wloc) (hb : bool) (e : error),
   size_ok asz -> version <= 4 -> Forall wloc_wf l ->
-  rejected hb l = Some e -> plain_until_reject asz hb l = true ->
-  write_list_v4 dbg loc be version asz hb l = Err e.
+  rejected asz hb l = Some e -> plain_until_reject asz hb l = true ->
+  write_list_v4 loc be version asz (marker asz) hb l = Err e.
 Proof. exact lwp_rejects_v4. Qed.
 
 Example rejects_v4_ex :
-  size_ok 4 /\ rejected false [LStartEnd (AConst 1) (AConst 2) [x9c]; LBase (AConst 7); LStartLength (AConst 16) 4 []]
+  size_ok 4 /\ rejected 4 false [LStartEnd (AConst 1) (AConst 2) [x9c]; LBase (AConst 7); LStartLength (AConst 16) 4 []]
                = Some WUnexpectedBaseAddress /\
   plain_until_reject 4 false [LStartEnd (AConst 1) (AConst 2) [x9c]; LBase (AConst 7); LStartLength (AConst 16) 4 []] = true /\
-  rejected false [LOffsetPair 1 2 []] = Some WMissingBaseAddress /\
-  rejected true [LOffsetPair 5 5 []] = Some WInvalidRange /\ rejected true [LDefault [x9c]] = Some WInvalidRange.
+  rejected 4 false [LOffsetPair 1 2 []] = Some WMissingBaseAddress /\
+  rejected 4 true [LOffsetPair 5 5 []] = Some WInvalidRange /\ rejected 4 true [LDefault [x9c]] = Some WInvalidRange /\
+  rejected 4 true [LOffsetPair 4294967295 32 []] = Some WInvalidRange /\
+  rejected 4 false [LStartEnd (AConst 4294967295) (AConst 32) []] = Some WInvalidRange /\
+  rejected 8 false [LStartLength (AConst (2 ^ 64 - 1)) 1 []] = Some WValueTooLarge /\
+  rejected 8 true [LStartLength (ASym 0 (2 ^ 63 - 1)) 1 []] = Some WValueTooLarge.
 Proof. vm_compute. repeat split; auto. Qed.
 
 (* ... and never bytes: whenever a pre-v5 writer returns Ok, no entry of the list was in a rejected class. *)
-Theorem rejected_never_bytes : forall (dbg loc be : bool) (version asz : N) (l : list wloc) (hb : bool) (bs : list byte),
-  write_list_v4 dbg loc be version asz hb l = Ok bs -> Forall (wf loc) l -> rejected hb l = None.
+Theorem rejected_never_bytes : forall (loc be : bool) (version asz : N) (l : list wloc) (hb : bool) (bs : list byte),
+  write_list_v4 loc be version asz (marker asz) hb l = Ok bs -> Forall (wf loc) l -> rejected asz hb l = None.
 Proof. exact lwp_rejected_never_bytes. Qed.
 
 Example rejected_never_bytes_ex :
-  exists bs, write_list_v4 true true false 4 4 false [LStartEnd (AConst 1) (AConst 2) [x9c]] = Ok bs /\
+  exists bs, write_list_v4 true false 4 4 (marker 4) false [LStartEnd (AConst 1) (AConst 2) [x9c]] = Ok bs /\
     Forall (wf true) [LStartEnd (AConst 1) (AConst 2) [x9c]].
 Proof. eexists. split; [vm_compute; reflexivity|]. repeat constructor; try discriminate; vm_compute; reflexivity. Qed.
 
 (* the same through Unit::write (have_base_address derived from the root DIE), one list in the unit:
    this is the value the `c16.rej` stream expects *)
-Theorem rejects_unit_rng : forall dbg be fmt64 version asz attrs rstart lstart (l : list wrange) e,
+Theorem rejects_unit_rng : forall be fmt64 version asz attrs rstart lstart (l : list wrange) e,
   size_ok asz -> 2 <= version <= 4 -> Forall wloc_wf (map loc_of_range l) ->
-  rejected (have_base_address attrs) (map loc_of_range l) = Some e ->
+  rejected asz (have_base_address attrs) (map loc_of_range l) = Some e ->
   plain_until_reject asz (have_base_address attrs) (map loc_of_range l) = true ->
-  unit_write_lists dbg be fmt64 version asz attrs rstart lstart [l] [] = Err e.
+  unit_write_lists be fmt64 version asz attrs rstart lstart [l] [] = Err e.
 Proof. exact lw_rejects_unit_rng. Qed.
 
-Theorem rejects_unit_loc : forall dbg be fmt64 version asz attrs rstart lstart (l : list wloc) e,
+Theorem rejects_unit_loc : forall be fmt64 version asz attrs rstart lstart (l : list wloc) e,
   size_ok asz -> 2 <= version <= 4 -> Forall wloc_wf l ->
-  rejected (have_base_address attrs) l = Some e ->
+  rejected asz (have_base_address attrs) l = Some e ->
   plain_until_reject asz (have_base_address attrs) l = true ->
-  unit_write_lists dbg be fmt64 version asz attrs rstart lstart [] [l] = Err e.
+  unit_write_lists be fmt64 version asz attrs rstart lstart [] [l] = Err e.
 Proof. exact lw_rejects_unit_loc. Qed.
 
+(* an address size outside 1..8 is refused with UnsupportedWordSize before anything is written, whatever the
+   lists are (new, 85ffc95; sizes 3,5,6,7 are refused by the first word written) *)
+Theorem rejects_bad_address_size : forall be fmt64 version asz attrs rstart lstart
+    (rtbl : list (list wrange)) (ltbl : list (list wloc)),
+  2 <= version <= 4 -> ~ (1 <= asz <= 8) -> rtbl <> [] \/ ltbl <> [] ->
+  unit_write_lists be fmt64 version asz attrs rstart lstart rtbl ltbl = Err WUnsupportedWordSize.
+Proof. exact lw_rejects_unit_bad_address_size. Qed.
+
+(* the witnesses that refuted ambiguity / write_read_v4 / no_panic on the unrepaired tree, with their results now *)
 Example rejects_unit_ex :
-  unit_write_lists true false false 4 8 [(DW_AT_low_pc, VAddress (AConst 4096))] 0 0
+  unit_write_lists false false 4 8 [(DW_AT_low_pc, VAddress (AConst 4096))] 0 0
     [[RStartEnd (AConst 1) (AConst 2)]] [] = Err WUnexpectedBaseAddress /\
-  unit_write_lists true false false 3 8 [(DW_AT_low_pc, VAddress (AConst 0))] 0 0
-    [] [[LOffsetPair 1 2 [x9c]]] = Err WMissingBaseAddress.
-Proof. vm_compute. split; reflexivity. Qed.
+  unit_write_lists false false 3 8 [(DW_AT_low_pc, VAddress (AConst 0))] 0 0
+    [] [[LOffsetPair 1 2 [x9c]]] = Err WMissingBaseAddress /\
+  (* design item F8 *)
+  unit_write_lists false false 4 4 [(DW_AT_low_pc, VAddress (AConst 4096))] 0 0
+    [[ROffsetPair 4294967295 32; ROffsetPair 48 64]] [] = Err WInvalidRange /\
+  unit_write_lists false false 4 4 [] 0 0 [] [[LStartEnd (AConst 4294967295) (AConst 32) [x9c]]] = Err WInvalidRange /\
+  unit_write_lists false false 4 8 [] 0 0 [[RStartLength (AConst (2 ^ 64 - 1)) 33]] [] = Err WValueTooLarge /\
+  unit_write_lists false false 4 8 [] 0 0 [[RStartLength (AConst (2 ^ 64 - 1)) 1]] [] = Err WValueTooLarge /\
+  unit_write_lists false false 4 8 [] 0 0 [] [[LStartLength (ASym 0 (2 ^ 63 - 1)) 1 []]] = Err WValueTooLarge /\
+  unit_write_lists false false 4 16 [] 0 0 [[RBase (AConst 1)]] [] = Err WUnsupportedWordSize /\
+  unit_write_lists false false 4 0 [] 0 0 [[RBase (AConst 1)]] [] = Err WUnsupportedWordSize /\
+  unit_write_lists false false 4 32 [] 0 0 [[RBase (AConst 1)]] [] = Err WUnsupportedWordSize.
+Proof. vm_compute. repeat split; reflexivity. Qed.
 
 (* ------------------------------------------------------------------ (2) ambiguity *)
 
-(* Whenever a pre-v5 writer returns Ok it has emitted exactly the pair encoding of `pairs_of l` followed by the
-   (0,0) terminator, and NO emitted non-terminator pair is (0,0). *)
-Theorem ambiguity_zero : forall (dbg loc be : bool) (version asz : N) (hb : bool) (l : list wloc) (bs : list byte),
-  write_list_v4 dbg loc be version asz hb l = Ok bs -> version <= 4 -> Forall (wf loc) l ->
+(* FULL: whenever a pre-v5 writer returns Ok it has emitted exactly the pair encoding of `pairs_of l` followed by
+   the (0,0) terminator; no emitted non-terminator pair is (0,0) and no emitted non-base pair begins with the
+   all-ones marker. *)
+Theorem ambiguity : forall (loc be : bool) (version asz : N) (hb : bool) (l : list wloc) (bs : list byte),
+  write_list_v4 loc be version asz (marker asz) hb l = Ok bs -> version <= 4 -> Forall (wf loc) l ->
   exists ps, pairs_of l = Some ps /\ bs = enc_list4 loc be asz ps /\
-    Forall (fun p => match p with EPair b e _ => ~ (b = 0 /\ e = 0) | _ => True end) ps.
-Proof. exact lw_ambiguity_zero. Qed.
+    Forall (fun p => match p with EPair b e _ => ~ (b = 0 /\ e = 0) /\ b <> amod asz - 1 | _ => True end) ps.
+Proof. exact lw_ambiguity. Qed.
 
-(* Planned second half — "no emitted non-base pair has begin = all-ones" — is FALSE for the faithful model: *)
-Theorem ambiguity_marker_refuted_offsetpair : forall dbg : bool,
-  exists l bs ps, Forall (wf false) l /\
-    write_list_v4 dbg false false 4 4 true l = Ok bs /\ pairs_of l = Some ps /\ bs = enc_list4 false false 4 ps /\
-    Exists (fun p => match p with EPair b _ _ => b = amod 4 - 1 | _ => False end) ps.
-Proof. exact lwp_ambiguity_marker_refuted_offsetpair. Qed.
-
-Theorem ambiguity_marker_refuted_startend : forall dbg : bool,
-  exists bs, write_list_v4 dbg true false 4 4 false [LStartEnd (AConst 4294967295) (AConst 32) [x9c]] = Ok bs /\
-    pairs_of [LStartEnd (AConst 4294967295) (AConst 32) [x9c]] = Some [EPair (amod 4 - 1) 32 [x9c]].
-Proof. exact lwp_ambiguity_marker_refuted_startend. Qed.
-
-(* release builds, address size 8: the u64 sum of StartLength wraps and the pair (all-ones, len-1) is written *)
-Theorem ambiguity_marker_refuted_startlength_release :
-  exists bs, write_list_v4 false false false 4 8 false [LStartLength (AConst (2 ^ 64 - 1)) 33 []] = Ok bs /\
-    pairs_of [LStartLength (AConst (2 ^ 64 - 1)) 33 []] = Some [EPair (amod 8 - 1) 32 []].
-Proof. exact lwp_ambiguity_marker_refuted_startlength_release. Qed.
-
-(* the weakened theorem, with the exact extra hypothesis: no entry of the LIST begins at the marker *)
-Theorem ambiguity_marker : forall (dbg loc be : bool) (version asz : N) (hb : bool) (l : list wloc) (bs : list byte),
-  write_list_v4 dbg loc be version asz hb l = Ok bs -> version <= 4 -> Forall (wf loc) l ->
-  ~ marker_clash asz l ->
-  exists ps, pairs_of l = Some ps /\ bs = enc_list4 loc be asz ps /\
-    Forall (fun p => match p with EPair b _ _ => b <> amod asz - 1 | _ => True end) ps.
-Proof. exact lw_ambiguity_marker. Qed.
-
-Example ambiguity_marker_ex :
-  ~ marker_clash 4 [LBase (AConst 4096); LOffsetPair 4294967294 32 []] /\
-  exists bs, write_list_v4 true false false 4 4 false [LBase (AConst 4096); LOffsetPair 4294967294 32 []] = Ok bs.
-Proof.
-  split; [|eexists; vm_compute; reflexivity].
-  intros [x [[<- | [<- | []]] H]]; vm_compute in H; discriminate.
-Qed.
+Example ambiguity_ex :
+  exists bs, write_list_v4 false false 4 4 (marker 4) false [LBase (AConst 4096); LOffsetPair 4294967294 32 []] = Ok bs /\
+    pairs_of [LBase (AConst 4096); LOffsetPair 4294967294 32 []] = Some [EBase 4096; EPair 4294967294 32 []].
+Proof. eexists. split; vm_compute; reflexivity. Qed.
 
 (* ------------------------------------------------------------------ (3) write_read_v5 *)
 
@@ -125,9 +125,9 @@ Qed.
    (offsets.get(id)) the section decodes to EXACTLY the entries of the written list (raw read-back), and therefore
    resolves, relative to any base address, to the meaning of the written list. rsec/lsec = what .debug_rnglists /
    .debug_loclists held before this unit. *)
-Theorem write_read_v5 : forall (dbg dbg' be fmt64 : bool) (asz : N) attrs (rstart lstart : N)
+Theorem write_read_v5 : forall (dbg' be fmt64 : bool) (asz : N) attrs (rstart lstart : N)
     (rtbl : list (list wrange)) (ltbl : list (list wloc)) rb ro lb lo (rsec lsec : list byte) (base : N),
-  unit_write_lists dbg be fmt64 5 asz attrs rstart lstart rtbl ltbl = Ok ((rb, ro), (lb, lo)) ->
+  unit_write_lists be fmt64 5 asz attrs rstart lstart rtbl ltbl = Ok ((rb, ro), (lb, lo)) ->
   N.of_nat (length rsec) = rstart -> N.of_nat (length lsec) = lstart -> unit_wf rtbl ltbl ->
   (forall i l, nth_error rtbl i = Some l ->
      exists o es rest, nth_error ro i = Some o /\
@@ -142,7 +142,7 @@ Theorem write_read_v5 : forall (dbg dbg' be fmt64 : bool) (asz : N) attrs (rstar
 Proof. exact lw_unit_read_v5. Qed.
 
 Example write_read_v5_ex :
-  exists out, unit_write_lists true false false 5 4 [(DW_AT_low_pc, VAddress (AConst 4096))] 0 0
+  exists out, unit_write_lists false false 5 4 [(DW_AT_low_pc, VAddress (AConst 4096))] 0 0
       [[RBase (AConst 8192); ROffsetPair 16 32; RStartLength (AConst 64) 8]]
       [[LDefault [x9c]; LStartEnd (AConst 1) (AConst 2) [x50; x51]]] = Ok out /\
   unit_wf [[RBase (AConst 8192); ROffsetPair 16 32; RStartLength (AConst 64) 8]]
@@ -155,46 +155,32 @@ Qed.
 
 (* ------------------------------------------------------------------ (4) write_read_v4 *)
 
-(* The planned statement without a side condition is FALSE (design item F8): v4, address size 4, unit low_pc
-   0x1000, [OffsetPair{0xffffffff,0x20}; OffsetPair{0x30,0x40}] is written with Ok and the bytes read back as a
-   base-address selection followed by (0x30,0x40): [(0x50,0x60)] instead of the written ranges. *)
-Theorem write_read_v4_refuted_F8 : forall dbg : bool,
-  let attrs := [(DW_AT_low_pc, VAddress (AConst 4096))] in
-  let l := [ROffsetPair 4294967295 32; ROffsetPair 48 64] in
-  exists rb o ps rest,
-    unit_write_lists dbg false false 4 4 attrs 0 0 [l] [] = Ok ((rb, [o]), ([], [])) /\
-    dec4 dbg false false 4 (at_offset o rb) = Ok (ps, rest) /\
-    map fst (resolve 4 (unit_base attrs) ps) = [(80, 96)] /\
-    meaning_rng 4 (unit_base attrs) l = Some [(4095, 4128); (4144, 4160)].
-Proof. exact lwp_write_read_v4_refuted_F8. Qed.
-
-(* Unit::write for a DWARF 2-4 unit, every list of both tables that is outside the known class: at the offset
-   recorded for its id the pair decoder yields pairs that resolve, through the unit base address that the READER
-   derives from the root DIE (`unit_base attrs`), to exactly the meaning of the written list. *)
-Theorem write_read_v4 : forall (dbg dbg' be fmt64 : bool) (version asz : N) attrs (rstart lstart : N)
+(* FULL: Unit::write for a DWARF 2-4 unit, EVERY list of both tables: at the offset recorded for its id the pair
+   decoder yields pairs that resolve, through the unit base address that the READER derives from the root DIE
+   (`unit_base attrs`), to exactly the meaning of the written list. *)
+Theorem write_read_v4 : forall (dbg' be fmt64 : bool) (version asz : N) attrs (rstart lstart : N)
     (rtbl : list (list wrange)) (ltbl : list (list wloc)) rb ro lb lo (rsec lsec : list byte),
-  unit_write_lists dbg be fmt64 version asz attrs rstart lstart rtbl ltbl = Ok ((rb, ro), (lb, lo)) ->
+  unit_write_lists be fmt64 version asz attrs rstart lstart rtbl ltbl = Ok ((rb, ro), (lb, lo)) ->
   2 <= version <= 4 ->
   N.of_nat (length rsec) = rstart -> N.of_nat (length lsec) = lstart -> unit_wf rtbl ltbl ->
-  (forall i l, nth_error rtbl i = Some l -> ~ marker_clash asz (map loc_of_range l) ->
+  (forall i l, nth_error rtbl i = Some l ->
      exists o ps rest, nth_error ro i = Some o /\
        dec4 dbg' false be asz (at_offset o (rsec ++ rb)) = Ok (ps, rest) /\
        meaning_rng asz (unit_base attrs) l = Some (map fst (resolve asz (unit_base attrs) ps))) /\
-  (forall i l, nth_error ltbl i = Some l -> ~ marker_clash asz l ->
+  (forall i l, nth_error ltbl i = Some l ->
      exists o ps rest, nth_error lo i = Some o /\
        dec4 dbg' true be asz (at_offset o (lsec ++ lb)) = Ok (ps, rest) /\
        meaning_loc asz (unit_base attrs) l = Some (resolve asz (unit_base attrs) ps)).
 Proof. exact lw_unit_read_v4. Qed.
 
 Example write_read_v4_ex :
-  exists out, unit_write_lists true true false 3 8 [(DW_AT_low_pc, VAddress (AConst 4096))] 5 0
+  exists out, unit_write_lists true false 3 8 [(DW_AT_low_pc, VAddress (AConst 4096))] 5 0
       [[ROffsetPair 16 32; RBase (AConst 8192); ROffsetPair 1 2]]
       [[LOffsetPair 16 32 [x9c; x50]]] = Ok out /\
   unit_wf [[ROffsetPair 16 32; RBase (AConst 8192); ROffsetPair 1 2]] [[LOffsetPair 16 32 [x9c; x50]]] /\
-  marker_clashb 8 (map loc_of_range [ROffsetPair 16 32; RBase (AConst 8192); ROffsetPair 1 2]) = false /\
   meaning_rng 8 4096 [ROffsetPair 16 32; RBase (AConst 8192); ROffsetPair 1 2] = Some [(4112, 4128); (8193, 8194)].
 Proof.
-  eexists. split; [vm_compute; reflexivity|]. split; [|split; vm_compute; reflexivity].
+  eexists. split; [vm_compute; reflexivity|]. split; [|vm_compute; reflexivity].
   split; repeat constructor; try discriminate; try (vm_compute; reflexivity).
 Qed.
 
@@ -228,9 +214,9 @@ Example dedup_ex :
 Proof. vm_compute. reflexivity. Qed.
 
 (* one emitted copy per table element, in table order; the offsets are the running positions *)
-Theorem one_copy_v4 : forall dbg loc be version asz hb pos tbl body offs,
-  write_tbl_v4 dbg loc be version asz hb pos tbl = Ok (body, offs) ->
-  exists bss, Forall2 (fun l bs => write_list_v4 dbg loc be version asz hb l = Ok bs) tbl bss /\
+Theorem one_copy_v4 : forall loc be version asz hb pos tbl body offs,
+  write_tbl_v4 loc be version asz hb pos tbl = Ok (body, offs) ->
+  exists bss, Forall2 (fun l bs => write_list_v4 loc be version asz (marker asz) hb l = Ok bs) tbl bss /\
     body = concat bss /\ offs = offsets_from pos bss.
 Proof. exact lwp_one_copy_v4. Qed.
 
@@ -246,10 +232,10 @@ Proof. exact lwp_one_copy_v5. Qed.
    added list, the id returned by add indexes an offset (offsets.get(id)) at which the section decodes to exactly
    that list, which therefore means what was written, for every base address. Combines dedup and write_read_v5. *)
 Theorem added_lists_read_back_v5 :
-  forall (dbg dbg' be fmt64 : bool) (asz : N) attrs (rstart lstart : N)
+  forall (dbg' be fmt64 : bool) (asz : N) attrs (rstart lstart : N)
     (rxs : list (list wrange)) (lxs : list (list wloc)) rtbl rids ltbl lids rb ro lb lo (rsec lsec : list byte) (base : N),
   rng_add_all [] rxs = (rtbl, rids) -> loc_add_all [] lxs = (ltbl, lids) ->
-  unit_write_lists dbg be fmt64 5 asz attrs rstart lstart rtbl ltbl = Ok ((rb, ro), (lb, lo)) ->
+  unit_write_lists be fmt64 5 asz attrs rstart lstart rtbl ltbl = Ok ((rb, ro), (lb, lo)) ->
   N.of_nat (length rsec) = rstart -> N.of_nat (length lsec) = lstart -> unit_wf rtbl ltbl ->
   (forall k x, nth_error rxs k = Some x ->
      exists id o es rest, nth_error rids k = Some id /\ offsets_get ro id = Ok o /\
@@ -263,19 +249,19 @@ Theorem added_lists_read_back_v5 :
        meaning_loc asz base x = Some (resolve asz base es)).
 Proof. exact lwp_added_lists_read_back_v5. Qed.
 
-(* The same for DWARF 2-4 outside the known class, relative to the base address the reader derives from the root. *)
+(* The same for DWARF 2-4, relative to the base address the reader derives from the root DIE. *)
 Theorem added_lists_read_back_v4 :
-  forall (dbg dbg' be fmt64 : bool) (version asz : N) attrs (rstart lstart : N)
+  forall (dbg' be fmt64 : bool) (version asz : N) attrs (rstart lstart : N)
     (rxs : list (list wrange)) (lxs : list (list wloc)) rtbl rids ltbl lids rb ro lb lo (rsec lsec : list byte),
   rng_add_all [] rxs = (rtbl, rids) -> loc_add_all [] lxs = (ltbl, lids) ->
-  unit_write_lists dbg be fmt64 version asz attrs rstart lstart rtbl ltbl = Ok ((rb, ro), (lb, lo)) ->
+  unit_write_lists be fmt64 version asz attrs rstart lstart rtbl ltbl = Ok ((rb, ro), (lb, lo)) ->
   2 <= version <= 4 ->
   N.of_nat (length rsec) = rstart -> N.of_nat (length lsec) = lstart -> unit_wf rtbl ltbl ->
-  (forall k x, nth_error rxs k = Some x -> ~ marker_clash asz (map loc_of_range x) ->
+  (forall k x, nth_error rxs k = Some x ->
      exists id o ps rest, nth_error rids k = Some id /\ offsets_get ro id = Ok o /\
        dec4 dbg' false be asz (at_offset o (rsec ++ rb)) = Ok (ps, rest) /\
        meaning_rng asz (unit_base attrs) x = Some (map fst (resolve asz (unit_base attrs) ps))) /\
-  (forall k x, nth_error lxs k = Some x -> ~ marker_clash asz x ->
+  (forall k x, nth_error lxs k = Some x ->
      exists id o ps rest, nth_error lids k = Some id /\ offsets_get lo id = Ok o /\
        dec4 dbg' true be asz (at_offset o (lsec ++ lb)) = Ok (ps, rest) /\
        meaning_loc asz (unit_base attrs) x = Some (resolve asz (unit_base attrs) ps)).
@@ -285,7 +271,7 @@ Example added_lists_read_back_ex :
   exists rtbl rids out,
     rng_add_all [] [[ROffsetPair 1 2]; [ROffsetPair 1 2]; [RStartEnd (AConst 3) (AConst 4)]] = (rtbl, rids) /\
     rids = [0; 0; 1]%nat /\
-    unit_write_lists true false true 5 8 [] 0 0 rtbl [] = Ok out.
+    unit_write_lists false true 5 8 [] 0 0 rtbl [] = Ok out.
 Proof. do 3 eexists. split; [vm_compute; reflexivity|]. split; [reflexivity|vm_compute; reflexivity]. Qed.
 
 (* ------------------------------------------------------------------ (6) base_from_root *)
@@ -309,43 +295,26 @@ Proof. vm_compute. repeat split; reflexivity. Qed.
 
 (* ------------------------------------------------------------------ no_panic *)
 
-(* The planned "for all inputs, both build modes" is FALSE for debug builds of the DWARF 2-4 writers: *)
-Theorem no_panic_refuted_startlength :
-  write_list_v4 true false false 4 8 false [LStartLength (AConst (2 ^ 64 - 1)) 1 []] = Panic /\
-  write_list_v4 true true false 4 8 false [LStartLength (ASym 0 (2 ^ 63 - 1)) 1 []] = Panic.
-Proof. exact lwp_no_panic_refuted_startlength. Qed.
-
-Theorem no_panic_refuted_marker :
-  write_list_v4 true false false 4 16 false [LBase (AConst 1)] = Panic /\
-  write_list_v4 true false false 4 0 false [LBase (AConst 1)] = Panic /\
-  write_list_v4 true false false 4 32 false [LBase (AConst 1)] = Panic.
-Proof. exact lwp_no_panic_refuted_marker. Qed.
-
-(* Unit::write's list part never panics (and the model never runs out of fuel): in release builds for every
-   input; in debug builds for every input whose address size is in 1..8 and whose StartLength sums fit the Rust
-   integer types (`panic_free_input`), all versions, formats, byte orders, root attributes, section positions. *)
-Theorem no_panic : forall dbg be fmt64 version asz attrs rstart lstart (rtbl : list (list wrange)) (ltbl : list (list wloc)),
+(* FULL: Unit::write's list part never panics (and the model never runs out of fuel) for ANY input of the Rust
+   types: all versions, formats, byte orders, address sizes 0..255, root attributes, section positions, lists.
+   The model has no build-mode parameter because the repaired code has no unchecked arithmetic left; what used to
+   panic in debug builds is now an error (see rejects_unit_ex). *)
+Theorem no_panic : forall be fmt64 version asz attrs rstart lstart (rtbl : list (list wrange)) (ltbl : list (list wloc)),
   unit_wf rtbl ltbl ->
-  Forall (panic_free_input dbg asz) (map (map loc_of_range) rtbl) -> Forall (panic_free_input dbg asz) ltbl ->
-  unit_write_lists dbg be fmt64 version asz attrs rstart lstart rtbl ltbl <> Panic /\
-  unit_write_lists dbg be fmt64 version asz attrs rstart lstart rtbl ltbl <> OutOfFuel.
+  unit_write_lists be fmt64 version asz attrs rstart lstart rtbl ltbl <> Panic /\
+  unit_write_lists be fmt64 version asz attrs rstart lstart rtbl ltbl <> OutOfFuel.
 Proof. exact lwp_no_panic. Qed.
 
-Theorem no_panic_release : forall be fmt64 version asz attrs rstart lstart (rtbl : list (list wrange)) (ltbl : list (list wloc)),
-  unit_wf rtbl ltbl ->
-  unit_write_lists false be fmt64 version asz attrs rstart lstart rtbl ltbl <> Panic.
-Proof. exact lwp_no_panic_release. Qed.
-
 Example no_panic_ex :
-  panic_free_input true 8 [LStartLength (AConst (2 ^ 64 - 2)) 1 []; LBase (AConst 5)] /\
-  ~ (sum_fits (LStartLength (AConst (2 ^ 64 - 1)) 1 []) = true).
-Proof. split; [right; split; [vm_compute; split; discriminate|repeat constructor]|vm_compute; discriminate]. Qed.
+  unit_wf [[RStartLength (AConst (2 ^ 64 - 1)) 1; RBase (AConst 5)]] [[LStartLength (ASym 3 (- 2 ^ 63)) (2 ^ 64 - 1) [x9c]]].
+Proof. split; repeat constructor; try discriminate; try (vm_compute; reflexivity); try (vm_compute; discriminate). Qed.
 
 (* ------------------------------------------------------------------ pins *)
-Check rejects_v4 : forall dbg loc be version asz l hb e, size_ok asz -> version <= 4 -> Forall wloc_wf l ->
-  rejected hb l = Some e -> plain_until_reject asz hb l = true -> write_list_v4 dbg loc be version asz hb l = Err e.
-Check rejected_never_bytes : forall dbg loc be version asz l hb bs,
-  write_list_v4 dbg loc be version asz hb l = Ok bs -> Forall (wf loc) l -> rejected hb l = None.
+Check rejects_v4 : forall loc be version asz l hb e, size_ok asz -> version <= 4 -> Forall wloc_wf l ->
+  rejected asz hb l = Some e -> plain_until_reject asz hb l = true -> write_list_v4 loc be version asz (marker asz) hb l = Err e.
+Check rejected_never_bytes : forall loc be version asz l hb bs,
+  write_list_v4 loc be version asz (marker asz) hb l = Ok bs -> Forall (wf loc) l -> rejected asz hb l = None.
 Check base_from_root : forall attrs, have_base_address attrs = false -> unit_base attrs = 0.
-Check no_panic_release : forall be fmt64 version asz attrs rstart lstart rtbl ltbl, unit_wf rtbl ltbl ->
-  unit_write_lists false be fmt64 version asz attrs rstart lstart rtbl ltbl <> Panic.
+Check no_panic : forall be fmt64 version asz attrs rstart lstart rtbl ltbl, unit_wf rtbl ltbl ->
+  unit_write_lists be fmt64 version asz attrs rstart lstart rtbl ltbl <> Panic /\
+  unit_write_lists be fmt64 version asz attrs rstart lstart rtbl ltbl <> OutOfFuel.
